@@ -53,6 +53,8 @@ pub fn configs_c02(tier: Tier) -> Vec<Box<dyn Config>> {
     c.universe = if q { 5 } else { 7 };
     let l = format!("{}-plain-memory-monitors", c.label());
     v.push(Box::new(BfsConfig::new(l, MapHarness::<PKey, PVal>::new(c), Limits { max_wall_s: if q { 30.0 } else { 600.0 }, ..Default::default() })));
+    // panicking callbacks are part of "every safe program": a small fault enumeration (details: C04)
+    v.push(super::c04::mk::<TKey, TVal>(Plan::Zero, if q { 5 } else { 7 }, vec![vec![]], None, tier, false, "-faults"));
     v
 }
 
@@ -74,6 +76,8 @@ pub fn configs_c03(tier: Tier) -> Vec<Box<dyn Config>> {
     // HashTable: extract_if / drain cuts are operations of its alphabet; into_iter / drain cuts as probes
     v.push(super::c06::tab(Plan::Zero, if q { 4 } else { 7 }, if q { 6 } else { 9 }, vec![TProbe::Iterators], true, tier, "-release"));
     // HashSet / layouts with drop glue through the leak-free part of the layout system
+    // exactly-once release also when a callback panics (single-fault enumeration, details: C04)
+    v.push(super::c04::mk::<TKey, TVal>(if sse2 { Plan::Seq } else { Plan::Zero }, if q { 4 } else { 7 }, vec![vec![]], None, tier, false, "-faults"));
     for coll in [Coll::Set, Coll::Map, Coll::Table] {
         let h = LayHarness::<D200>::new(coll, Plan::Zero, if q { 5 } else { 8 }, false);
         let l = format!("{}-release", h.label());
